@@ -96,15 +96,15 @@ func encodingTable(c *eng.Ctx, rule string, floatOnly bool) {
 
 func init() {
 	register(&Property{
-		ID:        "C10",
-		Title:     "Float chunks return exactly what was appended",
-		Technique: "cross-table agreement over go/types constants: every chunkenc.Encoding is dispatched to the same concrete chunk type by Pool.Get, Pool.Put, FromData and NewEmptyChunk, that type's Encoding() returns the constant, IsValidEncoding accepts exactly the constants; structural sibling rule between the XOR and XOR2 chunk wrappers' shared shape is NOT attempted (different bit formats); field-transfer map (E11) of Appender(): writer state resumed from the reader's state field by field, role pairing of the XOR base derived from the math.Float64bits operands",
-		DesignRef: "DESIGN.md §5 C10/C11",
-		Level: "Decides only the dispatch layer: bytes written under an encoding are reopened as the chunk type that wrote them (Get/FromData/NewEmptyChunk/Put agree with each type's Encoding()), every encoding is accepted by IsValidEncoding and named, and a value type maps to an existing encoding; and that an appender re-opened on existing bytes takes every piece of its codec state from the reader field that plays the same role (XOR base, last timestamp and delta, leading/trailing window, start-timestamp state). The bit-level round trip and Seek are value-level and not decided.",
-		Note:     "Trusted: go/packages, go/types.",
-		Covers:   "tsdb/chunkenc: pool.Get, pool.Put, FromData, NewEmptyChunk, IsValidEncoding, Encoding.String, ValueType.ChunkEncoding, (*T).Encoding() of the six chunk types.",
-		NotCover: "bit-exact round trip of timestamps, start timestamps and values; Seek; chunk capacity.",
-		Run:      runC10,
+		ID:             "C10",
+		Title:          "Float chunks return exactly what was appended",
+		Technique:      "cross-table agreement over go/types constants: every chunkenc.Encoding is dispatched to the same concrete chunk type by Pool.Get, Pool.Put, FromData and NewEmptyChunk, that type's Encoding() returns the constant, IsValidEncoding accepts exactly the constants; structural sibling rule between the XOR and XOR2 chunk wrappers' shared shape is NOT attempted (different bit formats); field-transfer map (E11) of Appender(): writer state resumed from the reader's state field by field, role pairing of the XOR base derived from the math.Float64bits operands",
+		DesignRef:      "DESIGN.md §5 C10/C11",
+		Level:          "Decides only the dispatch layer: bytes written under an encoding are reopened as the chunk type that wrote them (Get/FromData/NewEmptyChunk/Put agree with each type's Encoding()), every encoding is accepted by IsValidEncoding and named, and a value type maps to an existing encoding; and that an appender re-opened on existing bytes takes every piece of its codec state from the reader field that plays the same role (XOR base, last timestamp and delta, leading/trailing window, start-timestamp state). The bit-level round trip and Seek are value-level and not decided.",
+		Note:           "Trusted: go/packages, go/types.",
+		Covers:         "tsdb/chunkenc: pool.Get, pool.Put, FromData, NewEmptyChunk, IsValidEncoding, Encoding.String, ValueType.ChunkEncoding, (*T).Encoding() of the six chunk types.",
+		NotCover:       "bit-exact round trip of timestamps, start timestamps and values; Seek; chunk capacity.",
+		Run:            runC10,
 		MinObligations: 14,
 	})
 	register(&Property{
@@ -114,10 +114,10 @@ func init() {
 		DesignRef: "DESIGN.md §5 C10/C11",
 		Level: "Decides the dispatch layer (as C10) and that the near-copies implementing the same step stay in step: expandIntSpansAndBuckets / expandFloatSpansAndBuckets (bucket-by-bucket reset detection), the appendable decision of the plain and the start-timestamp appenders (integer and float), the gauge variants, and the head's appendHistogram / appendFloatHistogram, " +
 			"each pair equal after renaming except for the declared lines (delta vs. absolute bucket encoding, which last-value field is kept). A re-check dropped or an update moved in one sibling only is reported. The four histogram Appender() functions resume every codec-state field of the appender (and of the start-timestamp encoder) from the iterator field of the same name.",
-		Note:     "Trusted: go/packages, go/types; engine checker/eng/siblings.go; difference tables in checker/c10.go.",
-		Covers:   "dispatch tables as C10; expand{Int,Float}SpansAndBuckets; {Histogram,FloatHistogram}{,ST}Appender.appendable; appendableGauge; memSeries.appendHistogram/appendFloatHistogram.",
-		NotCover: "that the decision itself is right (value-level): bucket arithmetic, recoding, schema changes; reading back through iterators.",
-		Run:      runC11,
+		Note:           "Trusted: go/packages, go/types; engine checker/eng/siblings.go; difference tables in checker/c10.go.",
+		Covers:         "dispatch tables as C10; expand{Int,Float}SpansAndBuckets; {Histogram,FloatHistogram}{,ST}Appender.appendable; appendableGauge; memSeries.appendHistogram/appendFloatHistogram.",
+		NotCover:       "that the decision itself is right (value-level): bucket arithmetic, recoding, schema changes; reading back through iterators.",
+		Run:            runC11,
 		MinObligations: 18,
 	})
 }
